@@ -634,6 +634,19 @@ def run_C04(ctx):
     ctx.correspond("format", fm)
     special_check(ctx, ["format", "fields"], outcome=True)
     sweep_check(ctx, ["format", "fields"])
+    # "equal every option the caller forced" also after earlier builds on the same builder: an option set or changed between two
+    # build() calls must show in the second symbol exactly as on a fresh builder
+    hc = []
+    for data in (b"HELLO WORLD", b"12345", b"hello"):
+        nm = natural_mode(data)
+        for key, vals in (("mask", (0, 3, 7)), ("ecl", (0, 3)), ("version", (1, 5, 9)), ("mode", (2, nm))):
+            for a_ in vals:
+                hc.append("hist %s build %s=%d build" % (hexs(data), key, a_))
+                for b_ in vals:
+                    if a_ != b_:
+                        hc.append("hist %s %s=%d build %s=%d build build" % (hexs(data), key, a_, key, b_))
+        hc.append("hist %s build mask=2 build ecl=3 build version=7 build mask=5 build" % hexs(data))
+    check_hist_cases(ctx, hc)
 
 
 # ------------------------------------------------------------------------------------------ C05
@@ -1033,14 +1046,26 @@ def run_C10(ctx):
 
 
 # ------------------------------------------------------------------------------------------ C11
-def check_selection(ctx, bulk, tag="cands"):
+def check_selection(ctx, bulk, tag="cands", in_order=False):
     """`cands` cases (implementation + documented-penalty oracle only): the score used for ranking every candidate of the real
-    selection loop equals the documented penalty of that candidate, and the chosen mask has minimal penalty"""
-    bo = ctx.run_impl(tag, bulk)
+    selection loop equals the documented penalty of that candidate, and the chosen mask has minimal penalty. With in_order the
+    cases (which may be interleaved with other stream lines, e.g. forced-mask builds) run sequentially in ONE process."""
+    if in_order:
+        bo = run_exe(FQH, bulk, "h_seq_" + tag, shards=1)
+        ctx.evaluations += len(bulk)
+        pairs = [(c, o) for c, o in zip(bulk, bo) if c.startswith("cands ")]
+        bulk, bo = [c for c, _ in pairs], [o for _, o in pairs]
+    else:
+        bo = ctx.run_impl(tag, bulk)
     btr, bmeta = [], []
     for c, o in zip(bulk, bo):
         q = o.split()
         if len(q) < 3 or q[0] != "OK":
+            continue
+        if len(q) != 11:
+            # "all eight ISO mask patterns are tried on the same placed codewords": the recorder hook sits in the selection loop
+            ctx.count_oracle("selection_minimal", 1)
+            ctx.direct_failure("selection_minimal", {"case": c}, "the selection loop scored %d candidates, not 8 (chosen mask %s)" % (len(q) - 3, q[1]))
             continue
         for tok in q[3:]:
             k, sc_, hx = tok.split(":")
@@ -1183,6 +1208,25 @@ def run_C11(ctx):
     ctx.oracle("line_spec", tr)
     sp = [c.replace("build ", "cands ", 1) for c in special_builds(ctx, quick_big=True) if c.split()[4] == "-" and precondition_ok(c)]
     check_selection(ctx, sp, "cands_special")
+    # every version: a payload filling the version and a tiny one (per-version constants of a scorer show here)
+    cpv = caps(ctx)
+    pv = []
+    if cpv:
+        for v in range(40):
+            pv.append(build_case(None, 0, v, None, payload(rng, 2, max(1, cpv[2][0][v] - rng.randrange(0, 3))), "cands"))
+            pv.append(build_case(None, 3, v, None, payload(rng, 2, 1 + v % 7, "ascii"), "cands"))
+            if not ctx.quick:
+                pv.append(build_case(None, 1, v, None, payload(rng, 0, cpv[0][1][v]), "cands"))
+    check_selection(ctx, pv, "cands_versions")
+    # a selection right after builds of the same symbol with a forced mask / another level, in one process
+    seq = []
+    for data, v in ((b"HELLO", 2), (b"selection after forced", 4), (payload(rng, 2, 20, "ascii"), None)):
+        for k in (0, 5, 7, 2):
+            seq.append(build_case(None, 1, v, k, data))
+            seq.append(build_case(None, 1, v, None, data, "cands"))
+        seq.append(build_case(None, 3, v, None, data))
+        seq.append(build_case(None, 1, v, None, data, "cands"))
+    check_selection(ctx, seq, "cands_after_forced", in_order=True)
 
 
 # ------------------------------------------------------------------------------------------ C16
@@ -1334,6 +1378,13 @@ def gen_svg_cases(ctx, count, versions, with_image=True):
                 opts.append("igap=%s" % rng.choice(["0", "1", "0.5", "2.25", "1.75"]))
             if rng.random() < 0.3:
                 opts.append("ipos=%s,%s" % (rng.choice(["10", "12.5", "8.25"]), rng.choice(["10", "11.5", "14.75"])))
+        # other constructor forms of Color (Vec<u8> / &[u8], 4 and 3 components) and arbitrary values in the QRCode's other
+        # public fields (level, mask, mode, version): the document must depend on the modules and the builder options only
+        if rng.random() < 0.3:
+            ren = {"bg=": rng.choice(["bgv=", "bgv3="]), "fg=": rng.choice(["fgv=", "fgv3="]), "ibg=": "ibgv=", "shapec=": "shapecv="}
+            opts = [next((ren[k] + o[len(k):] for k in ren if o.startswith(k) and rng.random() < 0.7), o) for o in opts]
+        if rng.random() < 0.3:
+            opts.append(rng.choice(["qecl=%d" % rng.randrange(4), "qmask=%d" % rng.randrange(8), "qmode=%d" % rng.randrange(3), "qver=%d" % rng.randrange(40)]))
         layers = [o for o in opts if o.startswith("shape")]
         others = [o for o in opts if not o.startswith("shape")]
         rng.shuffle(others)
@@ -1462,6 +1513,13 @@ def run_C13(ctx):
         side = n + 8
         for w_, h_ in [(side * 5, side * 5), (side * 4, side * 4), (side, side), (side * 4, side * 4 + 1), (side * 4 + 1, side * 4)]:
             cases.append("raster %d %s shape=0 margin=4 fitw=%d fith=%d" % (n, hx, w_, h_))
+    # a large request (beyond 4096 pixels), and other values in the QRCode's level / mask fields
+    if mats:
+        n, hx = mats[min(mats)]
+        cases.append("raster %d %s shape=0 margin=4 fitw=%d" % (n, hx, (n + 8) * 142))
+        if not ctx.quick:
+            cases.append("raster %d %s shape=1 margin=0 fith=%d" % (n, hx, n * 256))
+        cases.append("raster %d %s shape=0 margin=1 qecl=3 qmask=2 fitw=%d" % (n, hx, (n + 2) * 4))
     # histories of fit_width / fit_height calls (last value of each wins; the pixmap is the largest square within both)
     if mats:
         n, hx = mats[min(mats)]
@@ -1849,6 +1907,9 @@ def run_C18(ctx):
         for ish in (range(3) if not ctx.quick else [v % 3]):
             for margin in (range(0, 17) if not ctx.quick else [[0, 4, 16, 3][v % 4]]):
                 cases.append("svg %d %s margin=%d image=%s ishape=%d" % (n, hx, margin, hexs("i.png"), ish))
+        # the default frame must not depend on the level / mask / mode recorded in the QRCode
+        for qo in (["qecl=%d" % (v % 4), "qecl=3"] if ctx.quick else ["qecl=0", "qecl=1", "qecl=2", "qecl=3", "qmask=%d" % (v % 8), "qmode=%d" % (v % 3)]):
+            cases.append("svg %d %s margin=2 image=%s ishape=%d %s" % (n, hx, hexs("i.png"), v % 3, qo))
     for _ in range(120 if ctx.quick else 3000):
         v = rng.choice(sorted(mats))
         n, hx = mats[v]
@@ -1885,7 +1946,7 @@ def run_C19(ctx):
     shutil.rmtree(wd, ignore_errors=True)      # outputs of earlier runs
     os.makedirs(wd, exist_ok=True)
     classes = ["ok", "overwrite", "samelen", "bare", "missingdir", "isdir", "devfull", "procfs", "longname", "nul",
-               "empty", "root", "dot", "dotdot", "trailslash", "relmissing"]
+               "empty", "root", "dot", "dotdot", "trailslash", "relmissing", "trailspace", "leadspace", "trailnl"]
     cases = ["file %s %s %s %s" % (k, cl, wd, sz) for k in ("svg", "png") for cl in classes for sz in ("small", "large")]
     cases += ["file svg fsize %s %s" % (wd, sz) for sz in ("small", "large")]   # both SVG documents exceed the 1 KiB limit
     cases += ["file svg %s %s nonascii" % (cl, wd) for cl in ("ok", "overwrite", "samelen", "bare")]   # a document with non-ASCII text
@@ -1896,7 +1957,7 @@ def run_C19(ctx):
     ctx.count_oracle("all_or_error", len(cases))
     for c, o in zip(cases, impl):
         cl = c.split()[2]
-        if cl in ("ok", "overwrite", "samelen", "bare"):
+        if cl in ("ok", "overwrite", "samelen", "bare", "trailspace", "leadspace", "trailnl"):
             if o != "RET_OK same=1":
                 ctx.direct_failure("all_or_error", {"case": c}, "write to a writable path: " + o)
         else:
@@ -2013,6 +2074,15 @@ def fuzz_hist_and_raster(ctx, cands):
     fuzz_raster(ctx, cands)
 
 
+def fuzz_builds_and_hist(which):
+    fb = fuzz_builds(which)
+
+    def f(ctx, cands):
+        fb(ctx, cands)
+        fuzz_hist(ctx, cands)
+    return f
+
+
 def fuzz_wasm(ctx, cands):
     cases = cands.get("wasm", [])[:150]
     if cases:
@@ -2026,7 +2096,7 @@ REGISTRY = {
             "rule": "builds at capacity for every (version, level) + random; structure() on all 160 layouts with position-tagged and random bytes"},
     "C03": {"run": run_C03, "fuzz": fuzz_builds(["fixed"]), "corpus": corpus_builds(["fixed"]), "tables": ["alignment", "version_size", "version_information"],
             "rule": "all 40 blank symbols + builds; every cell compared with the ISO region map"},
-    "C04": {"run": run_C04, "fuzz": fuzz_builds(["format", "fields"]), "corpus": corpus_builds(["format", "fields"]), "tables": ["format_info", "version_information"],
+    "C04": {"run": run_C04, "fuzz": fuzz_builds_and_hist(["format", "fields"]), "corpus": corpus_builds(["format", "fields"]), "tables": ["format_info", "version_information"],
             "rule": "all (level, mask) x versions forced + random builds"},
     "C05": {"run": run_C05, "fuzz": fuzz_builds(["decode"], outcome=True), "corpus": corpus_builds(["decode"]), "tables": ["version_get", "data_codewords", "cci"],
             "rule": "Version::get on every length 0..=7200 x 12 (+ huge lengths); builds at hi / hi+1 of every cell with forced versions"},
